@@ -391,6 +391,30 @@ def oracle(case):
 			return None
 		except Exception as e:
 			return {'what': 'operation raised %s: %s' % (exc_name(e), e), 'op': repr(op)[:200], 'finding': None}
+	# the collection as it stands, through its other views: iteration, length, a copy that is then changed
+	try:
+		keys = list(h.keys())
+		if len(h) != len(keys) or len({k_.lower() for k_ in keys}) != len(keys):
+			return {'what': 'len() is %d, iteration yields %d names (%d different ones ignoring case)' % (len(h), len(keys), len({k_.lower() for k_ in keys})), 'finding': None}
+		for k_ in keys:
+			for alt in (k_, k_.lower(), k_.upper()):
+				if alt not in h or h.getbytes(alt) != h.getbytes(k_):
+					return {'what': 'the name %r that iteration yields is not found (or answers differently) under the spelling %r' % (k_, alt), 'finding': None}
+		if sorted((k_.lower(), h.getbytes(k_)) for k_ in keys) != sorted((k_.lower(), (v_ if isinstance(v_, bytes) else v_.encode('latin-1'))) for k_, v_ in dict.items(h)):
+			return {'what': 'items of the collection and lookups by the iterated names disagree', 'finding': None}
+		before = dict(dict.items(h))
+		clone = Headers(h)
+		if dict(dict.items(clone)) != before:
+			return {'what': 'Headers(h) is not equal to h: %r / %r' % (dict(dict.items(clone)), before), 'finding': None}
+		clone['X-Clone-Only'] = b'1'
+		for k_ in list(clone.keys())[:1]:
+			clone[k_.swapcase()] = b'changed-in-the-copy'
+		if dict(dict.items(h)) != before:
+			return {'what': 'changing a copy Headers(h) changed h: %r, before %r' % (dict(dict.items(h)), before), 'finding': None}
+	except InvalidHeader:
+		pass
+	except Exception as e:
+		return {'what': 'reading the collection through keys() / len() / Headers(h) raised %s: %s' % (exc_name(e), e), 'finding': None}
 	return None
 
 
